@@ -4,3 +4,4 @@
 import Bardolph.Driver.All
 import Bardolph.Audit.Tool
 import Bardolph.Props.C11
+import Bardolph.Props.C10
